@@ -72,40 +72,59 @@ def run(ctx, crate):
     if c is None:
         obs.append(Ob("R10.counter", SLOTS_FN, "anchor missing", False))
     else:
-        ret = c.val_local(0)
         problems = []
-        if ret[0] != "phi":
-            problems.append("result is not a counter: %s" % show(ret))
+        # the two state variables: the locals carried round the loop (defined before it and again inside it), whatever they are called and
+        # whether or not the source names them (`slots += 1` in a `for`, or the two components of a fold's accumulator)
+        carried = []
+        for l in range(1, len(c.locals)):
+            ds = [d for d in c.defs.get(l, []) if d[2] == []]
+            if len(ds) > 1 and any(c.loops_of(d[0]) for d in ds) and any(not c.loops_of(d[0]) for d in ds):
+                carried.append(l)
+        if len(carried) != 2:
+            problems.append("expected two variables carried round the loop (slots, used), found %d" % len(carried))
         else:
-            n_local = ret[1][1]
-            multi = [l for l in range(len(c.locals)) if len([d for d in c.defs.get(l, []) if d[2] == []]) > 1 and c.locals[l]["user"] and l != n_local]
-            if len(multi) != 1:
-                problems.append("expected one running 'used' variable, found %d" % len(multi))
-            else:
-                u_local = multi[0]
+            def attempt(n_local, u_local):
+                o_ = []
                 names = {("phikey", (c.path, n_local)): "slots", ("phikey", (c.path, u_local)): "used", ("elem", ("param", 1)): "s"}
+
                 def table(l):
                     out = []
                     for bb, v in S.def_table(c, l):
                         out.append((len(c.loops_of(bb)), S.guard_str(S.block_guard(c, bb, names)), show(v, names)))
                     return sorted(out)
                 want_used = sorted([(0, "true", "0"), (1, "(gt(Add(used, s), 256))", "s"), (1, "(!gt(Add(used, s), 256))", "Add(used, s)")])
-                want_slots = sorted([(0, "true", "0"), (1, "(gt(Add(used, s), 256))", "Add(slots, 1)"), (0, "(gt(used, 0))", "Add(slots, 1)")])
-                gu, gs = table(u_local), table(n_local)
+                want_slots = [(0, "true", "0"), (1, "(gt(Add(used, s), 256))", "Add(slots, 1)")]
+                gu, gs, gr = table(u_local), table(n_local), table(0)
+                # the slot that is still open at the end: counted either by a last update of the counter, which is then returned, or in the result itself
+                final_in_counter = (0, "(gt(used, 0))", "Add(slots, 1)")
+                if final_in_counter in gs:
+                    want_slots.append(final_in_counter)
+                    ret = c.val_local(0)
+                    want_ret = "the counter"
+                    gr = "the counter" if ret[0] == "phi" and ret[1][1] == n_local else show(ret, names)[:120]
+                else:
+                    want_ret = sorted([(0, "(gt(used, 0))", "Add(slots, 1)"), (0, "(!gt(used, 0))", "slots")])
+                    if gr == [(0, "true", "Add(slots, Gt(used, 0))")]:
+                        want_ret = gr  # the same written as `slots + u32::from(used > 0)`
+                want_slots = sorted(want_slots)
                 labels = {0: "before / after the items", 1: "per item"}
                 for w in want_used:
-                    obs.append(Ob("R10.counter", SLOTS_FN, "used: %s when %s := %s" % (labels[w[0]], w[1], w[2]), w in gu, expected=w, found=gu))
+                    o_.append(Ob("R10.counter", SLOTS_FN, "used: %s when %s := %s" % (labels[w[0]], w[1], w[2]), w in gu, expected=w, found=gu))
                 for w in want_slots:
-                    obs.append(Ob("R10.counter", SLOTS_FN, "slots: %s when %s := %s" % (labels[w[0]], w[1], w[2]), w in gs, expected=w, found=gs))
+                    o_.append(Ob("R10.counter", SLOTS_FN, "slots: %s when %s := %s" % (labels[w[0]], w[1], w[2]), w in gs, expected=w, found=gs))
+                o_.append(Ob("R10.counter", SLOTS_FN, "result = slots closed, plus one if the open slot holds anything", gr == want_ret, expected=want_ret, found=gr))
                 extra = [x for x in gu if x not in want_used] + [x for x in gs if x not in want_slots]
-                obs.append(Ob("R10.counter", SLOTS_FN, "no other update of the two state variables", not extra, found=extra or "none"))
-                lps = [h for h in c.loops]
-                one_loop = len(lps) == 1
-                its = [s for s in S.call_sites(c) if s.path == "std::iter::Iterator::next"]
-                over_all = one_loop and len(its) == 1 and its[0].args[0] == ("param", 1)
-                if not over_all:
-                    problems.append("the items are not iterated by one loop over the argument")
-                # the final increment happens after the loop
+                o_.append(Ob("R10.counter", SLOTS_FN, "no other update of the two state variables", not extra, found=extra or "none"))
+                return o_
+            tries = [attempt(carried[0], carried[1]), attempt(carried[1], carried[0])]
+            tries.sort(key=lambda o_: len([x for x in o_ if not x.ok]))
+            obs += tries[0]
+            lps = [h for h in c.loops]
+            one_loop = len(lps) == 1
+            its = [s for s in S.call_sites(c) if s.path == "std::iter::Iterator::next"]
+            over_all = one_loop and len(its) == 1 and its[0].args[0] in (("param", 1), ("iter", ("param", 1)))
+            if not over_all:
+                problems.append("the items are not iterated by one loop over the argument")
         obs.append(Ob("R10.counter", SLOTS_FN, "counter is a single pass over all items returning slots", not problems, found=problems or "ok"))
     # ---------------- R10.report
     for fn, kind in (("analyzer::optimizations::pack_storage_variables::pack_storage_variables_optimization", "contract"),
@@ -117,7 +136,8 @@ def run(ctx, crate):
         ss = S.call_sites(d)
         cnt = [s for s in ss if s.path == SLOTS_FN]
         sorts = [s for s in ss if s.path.endswith(("::sort", "::sort_unstable"))]
-        clones = [s for s in ss if s.path == "std::clone::Clone::clone" and s.fn and "Vec<u16>" in (s.fn["gargs"][0] if s.fn.get("gargs") else "")]
+        clones = [s for s in ss if (s.path == "std::clone::Clone::clone" and s.fn and "Vec<u16>" in (s.fn["gargs"][0] if s.fn.get("gargs") else ""))
+                  or (s.path in ("std::slice::<impl [T]>::to_vec", "core::slice::<impl [T]>::to_vec") and s.fn and (s.fn.get("gargs") or [""])[0] == "u16")]
         pushes = [s for s in ss if s.path == "std::vec::Vec::<T, A>::push"]
         ok = len(cnt) == 2 and len(sorts) == 1 and len(clones) == 1 and len(pushes) == 1
         if len(cnt) == 2 and len(sorts) == 1 and len(clones) == 0 and len(pushes) == 1:
